@@ -116,7 +116,7 @@ def genuine(ctx, n):
         if bad:
             rep.violate("genuine-address", case, bad, {"texts": texts[1][:5], "addresses": addrs[1][:5],
                         "instruction_lines": seq[:40]}, model_agrees_with_spec=None)
-            if rep.violations and ctx.tier == "thorough":
+            if rep.has_new() and ctx.tier == "thorough":
                 return
 
 
